@@ -35,6 +35,49 @@ def run(ctx):
     text_formats(ctx)
     union_order(ctx)
     validator_symmetry(ctx)
+    optional_header_forms(ctx)
+
+
+def optional_header_forms(ctx):
+    """SuitHeaderMapOptional.from_obj chooses the alternative itself (it does not try the children in order): what parse renders for each
+    alternative - '' for the zero-length byte string, a dict for a header map - must select that very alternative again, or the
+    re-created protected header is another byte string (`40` vs `41 a0`) and the manifest digest changes.  Decided by evaluating the
+    function's outcomes on sample descriptions (whatever the nesting / naming of its tests)."""
+    R = ctx.report
+    repo = ctx.repo
+    fi = repo.func("suit_generator.suit.security", "SuitHeaderMapOptional.from_obj")
+    fq = ctx.fq(fi)
+    R.rule("C03-D1e optional header forms", 5, "'' / b'' / {} -> the empty byte string alternative; a non-empty dict -> the header map; anything else is refused")
+    outs = Evaluator(repo, inline_depth=0).outcomes(fi)
+    OBJ = Sym("param:obj")
+    samples = [("", "SuitEmptyBstr"), (b"", "SuitEmptyBstr"), ({}, "SuitEmptyBstr"), ({"suit-cose-algorithm-id": "cose-alg-a128kw"}, "SuitHeaderMap"), (5, None),
+               ("00", None)]
+    for smp, want in samples:
+        facts = {"param:obj": smp}
+        try:
+            taken = generic.taken_outcomes(outs, facts, strict=True)
+        except AnalysisError as e:
+            raise AnalysisError(f"{fq}: {e}")
+        got = []
+        for o in taken:
+            if o.kind != "return":
+                got.append(None)
+                continue
+            for v in generic.select_alternatives(o.value, facts):
+                # cls(<Child>.from_obj(<arg>)): the child class and what it is given
+                child, arg = "?", None
+                for s_ in subterms(v):
+                    if isinstance(s_, App) and s_.op == "call" and isinstance(s_.args[0], Ref) and getattr(s_.args[0].obj, "name", "") == "from_obj":
+                        cl = [a_ for a_ in s_.args[1:] if isinstance(a_, Ref) and a_.kind == "class"]
+                        child = cl[0].obj.name if cl else "?"
+                        arg = s_.args[-1]
+                if child == "SuitEmptyBstr" and arg not in (Const(""), Const(b"")) and not (arg == OBJ and smp in ("", b"")):
+                    child = f"SuitEmptyBstr given {arg!r}"
+                if child == "SuitHeaderMap" and arg != OBJ and not (isinstance(arg, App) and arg.op == "phi"):
+                    child = f"SuitHeaderMap given {arg!r}"
+                got.append(child)
+        R.check("C03-D1e optional header forms", bool(got) and all(g_ == want for g_ in got), f"{smp!r} -> {want or 'ValueError'}", mod=fi.module, node=fi.node,
+                function=fq, expected=f"{want or 'raise ValueError'}", found=f"{got}", key_extra=repr(smp))
 
 
 # ---------------------------------------------------------------------------------------------- D1
